@@ -20,9 +20,12 @@ import (
 	"example.com/scion-time/net/nts"
 	"example.com/scion-time/net/ntske"
 
+	"github.com/scionproto/scion/pkg/addr"
+
 	"verif/internal/ev"
 	"verif/internal/netlab"
 	"verif/internal/vt"
+	"verif/internal/wire"
 )
 
 type reqShape struct {
@@ -81,140 +84,178 @@ func sealRequest(s reqShape, cookie, c2s []byte) (pkt, uid []byte, txTime []byte
 
 var recSrv = ev.New("c11/server-replies", "rapid: NTS requests sealed by the harness (own field encoder + miscreant AES-SIV) under the C2S key of a cookie issued under the listener's current server key, with a unique identifier of 32..300 bytes (dense at 32, 64, 112..124, 248), one cookie and 0..12 placeholders of cookie size (or another size), sent to the real IP listener. Oracle: exactly one reply; it fits nts.MaxPacketLen; well-formed for the harness's own walker; echoes the identifier; verifies under S2C; carries min(requested, as many 124-byte cookies as fit the maximum packet size for this identifier length) fresh, pairwise distinct cookies, each opening under a currently valid server key to the session's keys. One evaluation = one request. Non-trivial: identifier longer than 32 bytes or more than 8 fields requested; distinct by request shape")
 
-func TestPropServerReplies(t *testing.T) {
+func TestPropServerReplies(t *testing.T) { serverReplies(t, "ip", recSrv, 600, 6000) }
+
+var recSrvS = ev.New("c11/server-replies-scion", "as c11/server-replies, the requests wrapped into SCION/UDP packets (empty path) and sent to the real SCION listener, which shares the key provider; 1..4 requests per case from one socket, so that one listener goroutine sees requests with many placeholders followed by requests with few. Same oracle on the unwrapped replies")
+
+func TestPropServerRepliesSCION(t *testing.T) { serverReplies(t, "scion", recSrvS, 300, 3000) }
+
+func serverReplies(t *testing.T, transport string, recSrv *ev.Recorder, nq, nth int) {
 	sock, err := net.ListenUDP("udp", netlab.UDPAddr(netlab.Addr(4), 0))
 	if err != nil {
 		vt.Inconclusive(t, "bind: %v", err)
 	}
 	defer sock.Close()
 	buf := make([]byte, 8192)
-	vt.Check(t, 600, 6000, func(t *rapid.T) {
-		s := reqShape{
-			UIDLen:       rapid.OneOf(rapid.Just(32), rapid.SampledFrom([]int{32, 33, 36, 64, 112, 116, 117, 120, 124, 128, 248, 252, 300}), rapid.IntRange(32, 300)).Draw(t, "uidlen"),
-			Placeholders: rapid.OneOf(rapid.IntRange(0, 7), rapid.IntRange(0, 12)).Draw(t, "placeholders"),
-			PHLen:        124,
-			Seed:         rapid.Uint64().Draw(t, "seed"),
-			LVM:          rapid.SampledFrom([]byte{0x23, 0x23, 0x1b, 0xe3}).Draw(t, "lvm"),
+	ia := addr.MustIAFrom(1, 0xff0000000110)
+	pth, _ := (wire.PathSpec{Kind: "empty"}).SlayersPath()
+	wrap := func(payload []byte) []byte {
+		if transport != "scion" {
+			return payload
 		}
-		if rapid.IntRange(0, 5).Draw(t, "odd-placeholder") == 0 {
-			s.PHLen = rapid.SampledFrom([]int{0, 4, 24, 100, 128, 200}).Draw(t, "phlen")
-		}
-		// the request must fit the listener's view of a maximum NTS packet itself
-		for 48+4+(s.UIDLen+3)&^3+128+s.Placeholders*(4+(s.PHLen+3)&^3)+4+4+16+16 > 2000 && s.Placeholders > 0 { // the listener reads up to 2048 bytes
-			s.Placeholders--
-		}
-		c2s, s2c := fillBytes(32, s.Seed+10), fillBytes(32, s.Seed+11)
-		key := provider.Current()
-		sc := ntske.ServerCookie{Algo: ntske.AES_SIV_CMAC_256, S2C: s2c, C2S: c2s}
-		enc, err := sc.EncryptWithNonce(key.Value, key.ID)
+		raw, err := (&wire.Pkt{SrcIA: ia, DstIA: ia, Src: netlab.Addr(4), Dst: netlab.Addr(5), Path: pth, SrcPort: 4567, DstPort: uint16(scionSrvAddr.Port), Payload: payload}).Serialize(nil, nil)
 		if err != nil {
-			t.Fatalf("harness: %v", err)
+			panic(err)
 		}
-		cookie := enc.Encode()
-		pkt, uid, tx := sealRequest(s, cookie, c2s)
-		// drain, send, collect for a short while
-		for {
-			sock.SetReadDeadline(time.Now().Add(200 * time.Microsecond))
-			if _, _, err := sock.ReadFromUDP(buf); err != nil {
-				break
+		return raw
+	}
+	unwrap := func(d []byte) []byte {
+		if transport != "scion" {
+			return d
+		}
+		p, err := wire.Parse(d)
+		if err != nil || !p.IsUDP {
+			return nil
+		}
+		return p.UDP.Payload
+	}
+	dstAddr := srvAddr
+	if transport == "scion" {
+		dstAddr = scionSrvAddr
+	}
+	vt.Check(t, nq, nth, func(t *rapid.T) {
+		nreq := 1
+		if transport == "scion" {
+			nreq = rapid.IntRange(1, 4).Draw(t, "requests")
+		}
+		for ; nreq > 0; nreq-- {
+			s := reqShape{
+				UIDLen:       rapid.OneOf(rapid.Just(32), rapid.SampledFrom([]int{32, 33, 36, 64, 112, 116, 117, 120, 124, 128, 248, 252, 300}), rapid.IntRange(32, 300)).Draw(t, "uidlen"),
+				Placeholders: rapid.OneOf(rapid.IntRange(0, 7), rapid.IntRange(0, 12)).Draw(t, "placeholders"),
+				PHLen:        124,
+				Seed:         rapid.Uint64().Draw(t, "seed"),
+				LVM:          rapid.SampledFrom([]byte{0x23, 0x23, 0x1b, 0xe3}).Draw(t, "lvm"),
 			}
-		}
-		var replies [][]byte
-		for attempt := 0; attempt < 3 && len(replies) == 0; attempt++ {
-			sock.WriteToUDP(pkt, srvAddr)
-			deadline := time.Now().Add(time.Duration(200*(attempt+1)) * time.Millisecond)
+			if rapid.IntRange(0, 5).Draw(t, "odd-placeholder") == 0 {
+				s.PHLen = rapid.SampledFrom([]int{0, 4, 24, 100, 128, 200}).Draw(t, "phlen")
+			}
+			// the request must fit the listener's view of a maximum NTS packet itself
+			for 48+4+(s.UIDLen+3)&^3+128+s.Placeholders*(4+(s.PHLen+3)&^3)+4+4+16+16 > 2000 && s.Placeholders > 0 { // the listener reads up to 2048 bytes
+				s.Placeholders--
+			}
+			c2s, s2c := fillBytes(32, s.Seed+10), fillBytes(32, s.Seed+11)
+			key := provider.Current()
+			sc := ntske.ServerCookie{Algo: ntske.AES_SIV_CMAC_256, S2C: s2c, C2S: c2s}
+			enc, err := sc.EncryptWithNonce(key.Value, key.ID)
+			if err != nil {
+				t.Fatalf("harness: %v", err)
+			}
+			cookie := enc.Encode()
+			pkt, uid, tx := sealRequest(s, cookie, c2s)
+			// drain, send, collect for a short while
 			for {
-				sock.SetReadDeadline(deadline)
-				n, _, err := sock.ReadFromUDP(buf)
-				if err != nil {
+				sock.SetReadDeadline(time.Now().Add(200 * time.Microsecond))
+				if _, _, err := sock.ReadFromUDP(buf); err != nil {
 					break
 				}
-				if n >= 48 && bytes.Equal(buf[24:32], tx) {
-					replies = append(replies, bytes.Clone(buf[:n]))
-					deadline = time.Now().Add(3 * time.Millisecond)
+			}
+			var replies [][]byte
+			for attempt := 0; attempt < 3 && len(replies) == 0; attempt++ {
+				sock.WriteToUDP(wrap(pkt), dstAddr)
+				deadline := time.Now().Add(time.Duration(200*(attempt+1)) * time.Millisecond)
+				for {
+					sock.SetReadDeadline(deadline)
+					n, _, err := sock.ReadFromUDP(buf)
+					if err != nil {
+						break
+					}
+					if d := unwrap(buf[:n]); len(d) >= 48 && bytes.Equal(d[24:32], tx) {
+						replies = append(replies, bytes.Clone(d))
+						deadline = time.Now().Add(3 * time.Millisecond)
+					}
 				}
 			}
-		}
-		requested := 1 + s.Placeholders
-		desc := fmt.Sprintf("identifier of %d bytes, 1 cookie + %d placeholders of %d bytes (request %d bytes)", s.UIDLen, s.Placeholders, s.PHLen, len(pkt))
-		if len(replies) == 0 {
-			t.Fatalf("authenticated request (%s) was not answered", desc)
-		}
-		r := replies[0]
-		if len(r) > nts.MaxPacketLen {
-			t.Fatalf("reply of %d bytes exceeds the maximum NTS packet size %d (%s)", len(r), nts.MaxPacketLen, desc)
-		}
-		rf, werr := walk(r)
-		if werr != nil {
-			t.Fatalf("reply is not well-formed: %v (%s)", werr, desc)
-		}
-		var ruid []byte
-		var rauth *field
-		for i := range rf {
-			switch rf[i].typ {
-			case 0x104:
-				ruid = rf[i].body
-			case 0x404:
-				rauth = &rf[i]
+			requested := 1 + s.Placeholders
+			desc := fmt.Sprintf("identifier of %d bytes, 1 cookie + %d placeholders of %d bytes (request %d bytes)", s.UIDLen, s.Placeholders, s.PHLen, len(pkt))
+			if len(replies) == 0 {
+				t.Fatalf("authenticated request (%s) was not answered", desc)
 			}
-		}
-		if rauth == nil || len(ruid) < len(uid) || !bytes.Equal(ruid[:len(uid)], uid) || len(bytes.Trim(ruid[len(uid):], "\x00")) != 0 {
-			t.Fatalf("reply does not echo the unique identifier or has no authenticator (%s)", desc)
-		}
-		pt, oerr := open(r, *rauth, s2c)
-		if oerr != nil {
-			t.Fatalf("reply does not verify under the session's S2C key: %v (%s)", oerr, desc)
-		}
-		fresh := 0
-		seen := map[string]bool{string(cookie): true}
-		for pos := 0; pos+4 <= len(pt); {
-			typ, l := binary.BigEndian.Uint16(pt[pos:]), int(binary.BigEndian.Uint16(pt[pos+2:]))
-			if l < 4 || pos+l > len(pt) {
-				t.Fatalf("encrypted part of the reply is not a sequence of extension fields (%s)", desc)
+			r := replies[0]
+			if len(r) > nts.MaxPacketLen {
+				t.Fatalf("reply of %d bytes exceeds the maximum NTS packet size %d (%s)", len(r), nts.MaxPacketLen, desc)
 			}
-			if typ == 0x204 {
-				ck := pt[pos+4 : pos+l]
-				if seen[string(ck)] {
-					t.Fatalf("reply carries the same cookie twice, or the cookie just used (%s)", desc)
-				}
-				seen[string(ck)] = true
-				var e ntske.EncryptedServerCookie
-				if err := e.Decode(ck); err != nil {
-					t.Fatalf("issued cookie does not decode: %v", err)
-				}
-				k, ok := provider.Get(int(e.ID))
-				if !ok {
-					t.Fatalf("issued cookie names key %d which is not currently valid", e.ID)
-				}
-				o, err := e.Decrypt(k.Value)
-				if err != nil || !bytes.Equal(o.C2S, c2s) || !bytes.Equal(o.S2C, s2c) {
-					t.Fatalf("issued cookie does not open to the session's keys: %v", err)
-				}
-				fresh++
+			rf, werr := walk(r)
+			if werr != nil {
+				t.Fatalf("reply is not well-formed: %v (%s)", werr, desc)
 			}
-			pos += l
+			var ruid []byte
+			var rauth *field
+			for i := range rf {
+				switch rf[i].typ {
+				case 0x104:
+					ruid = rf[i].body
+				case 0x404:
+					rauth = &rf[i]
+				}
+			}
+			if rauth == nil || len(ruid) < len(uid) || !bytes.Equal(ruid[:len(uid)], uid) || len(bytes.Trim(ruid[len(uid):], "\x00")) != 0 {
+				t.Fatalf("reply does not echo the unique identifier or has no authenticator (%s)", desc)
+			}
+			pt, oerr := open(r, *rauth, s2c)
+			if oerr != nil {
+				t.Fatalf("reply does not verify under the session's S2C key: %v (%s)", oerr, desc)
+			}
+			fresh := 0
+			seen := map[string]bool{string(cookie): true}
+			for pos := 0; pos+4 <= len(pt); {
+				typ, l := binary.BigEndian.Uint16(pt[pos:]), int(binary.BigEndian.Uint16(pt[pos+2:]))
+				if l < 4 || pos+l > len(pt) {
+					t.Fatalf("encrypted part of the reply is not a sequence of extension fields (%s)", desc)
+				}
+				if typ == 0x204 {
+					ck := pt[pos+4 : pos+l]
+					if seen[string(ck)] {
+						t.Fatalf("reply carries the same cookie twice, or the cookie just used (%s)", desc)
+					}
+					seen[string(ck)] = true
+					var e ntske.EncryptedServerCookie
+					if err := e.Decode(ck); err != nil {
+						t.Fatalf("issued cookie does not decode: %v", err)
+					}
+					k, ok := provider.Get(int(e.ID))
+					if !ok {
+						t.Fatalf("issued cookie names key %d which is not currently valid", e.ID)
+					}
+					o, err := e.Decrypt(k.Value)
+					if err != nil || !bytes.Equal(o.C2S, c2s) || !bytes.Equal(o.S2C, s2c) {
+						t.Fatalf("issued cookie does not open to the session's keys: %v", err)
+					}
+					fresh++
+				}
+				pos += l
+			}
+			// as many as fit: header + identifier field + authenticator (4 + 4 + 16 nonce + 16 tag + n cookie fields)
+			fit := 0
+			for n := 1; 48+4+(s.UIDLen+3)&^3+4+4+16+16+n*(4+len(cookie)) <= nts.MaxPacketLen; n++ {
+				fit = n
+			}
+			want := min(requested, fit)
+			if fresh != want {
+				t.Fatalf("reply carries %d fresh cookies; %d were requested and %d fit the maximum packet size of %d with this identifier (%s; reply %d bytes)", fresh, requested, fit, nts.MaxPacketLen, desc, len(r))
+			}
+			var ls []string
+			if s.UIDLen > 32 {
+				ls = append(ls, "long-identifier")
+			}
+			if requested > 8 {
+				ls = append(ls, "more-than-8-requested")
+			}
+			if want < requested {
+				ls = append(ls, "not-all-fit")
+			}
+			recSrv.Eval(s.UIDLen > 32 || requested > 8, ev.Hash(s.UIDLen, s.Placeholders, s.PHLen, int(s.LVM)), func() any {
+				return map[string]any{"shape": s, "request_prefix": hex.EncodeToString(pkt[:64]), "reply_len": len(r), "fresh_cookies": fresh}
+			}, ls...)
 		}
-		// as many as fit: header + identifier field + authenticator (4 + 4 + 16 nonce + 16 tag + n cookie fields)
-		fit := 0
-		for n := 1; 48+4+(s.UIDLen+3)&^3+4+4+16+16+n*(4+len(cookie)) <= nts.MaxPacketLen; n++ {
-			fit = n
-		}
-		want := min(requested, fit)
-		if fresh != want {
-			t.Fatalf("reply carries %d fresh cookies; %d were requested and %d fit the maximum packet size of %d with this identifier (%s; reply %d bytes)", fresh, requested, fit, nts.MaxPacketLen, desc, len(r))
-		}
-		var ls []string
-		if s.UIDLen > 32 {
-			ls = append(ls, "long-identifier")
-		}
-		if requested > 8 {
-			ls = append(ls, "more-than-8-requested")
-		}
-		if want < requested {
-			ls = append(ls, "not-all-fit")
-		}
-		recSrv.Eval(s.UIDLen > 32 || requested > 8, ev.Hash(s.UIDLen, s.Placeholders, s.PHLen, int(s.LVM)), func() any {
-			return map[string]any{"shape": s, "request_prefix": hex.EncodeToString(pkt[:64]), "reply_len": len(r), "fresh_cookies": fresh}
-		}, ls...)
 	})
 }
